@@ -123,6 +123,32 @@ def history_reads(ctx, modname, families, what, why):
                         if isinstance(r, ast.Return) and isinstance(r.value, ast.Attribute) and isinstance(r.value.value, ast.Name) and r.value.value.id == 'self' and r.value.attr in hist:
                             props[name] = r.value.attr
         ctx.saw('%s: argument-dependent memos %s; properties handing them out: %s' % ('/'.join(fam), sorted(hist), sorted(props)))
+        # another memo must not be filled from an argument-dependent one (or from the arguments) by a method that is not its accessor:
+        # the argument dependence would leak into a value that is later reused without any validation
+        accessors = {}
+        for memo in memos:
+            accessors.setdefault(memo.attr, set()).add(memo.method)
+        for c in fam:
+            for name, f in sorted(cache.class_methods(m, c).items()):
+                if name == '__init__':
+                    continue
+                params = set(a.arg for a in f.args.args[1:] + f.args.kwonlyargs)
+                for s_ in ast.walk(f):
+                    if not isinstance(s_, ast.Assign):
+                        continue
+                    for t in s_.targets:
+                        if not (isinstance(t, ast.Attribute) and isinstance(t.value, ast.Name) and t.value.id == 'self' and t.attr in accessors and name not in accessors[t.attr]):
+                            continue
+                        if t.attr in hist:
+                            continue
+                        if isinstance(s_.value, ast.Constant) and s_.value.value in (None, '', b'', False, 0):
+                            continue
+                        reads_hist = sorted(set(a.attr for a in ast.walk(s_.value) if isinstance(a, ast.Attribute) and isinstance(a.value, ast.Name) and a.value.id == 'self' and (a.attr in hist or a.attr in props)))
+                        reads_par = sorted(set(a.id for a in ast.walk(s_.value) if isinstance(a, ast.Name) and a.id in params))
+                        if reads_hist or reads_par:
+                            n += 1
+                            ctx.violate('%s:%s.%s' % (modname, c, name), '%s.%s fills the memo self.%s (accessor: %s) from %s, which depends on the arguments of the call: the value is reused later without validation' % (
+                                c, name, t.attr, '/'.join(sorted(accessors[t.attr])), ', '.join(['self.' + x for x in reads_hist] + reads_par)), s_, why)
         for c in fam:
             for name, f in sorted(cache.class_methods(m, c).items()):
                 if name == '__init__' or name in props:
